@@ -502,9 +502,14 @@ func DecodeListPage(r *Resp) (*ListPage, error) {
 // ListAll follows the token chain. maxResults <= 0: parameter not sent. It stops after maxPages pages
 // (truncated=true) so that a token loop cannot hang the check.
 func (c *Client) ListAll(b, prefix, delim string, maxResults, maxPages int) (pages []*ListPage, truncated bool, err error) {
+	return c.ListAllQ(b, prefix, delim, maxResults, maxPages, nil)
+}
+
+// ListAllQ is ListAll with further query parameters (e.g. projection) sent with every page request.
+func (c *Client) ListAllQ(b, prefix, delim string, maxResults, maxPages int, extra [][2]string) (pages []*ListPage, truncated bool, err error) {
 	token := ""
 	for {
-		var q [][2]string
+		q := append([][2]string(nil), extra...)
 		if prefix != "" {
 			q = append(q, [2]string{"prefix", prefix})
 		}
